@@ -149,6 +149,20 @@ class HilbertClimateNetwork(ClimateNetwork):
             if directed:
                 self.adjacency = self.adjacency * (self.phase_shift() > 0)
 
+    def set_threshold(self, threshold):
+        """
+        Generate the Hilbert climate network by thresholding the coherence.
+
+        The directionality given by the phase shifts is kept for directed
+        networks (as at construction).
+
+        :arg number threshold: Threshold of the similarity measure, above
+            which two nodes are linked in the network.
+        """
+        ClimateNetwork.set_threshold(self, threshold)
+        if self.directed and self._coherence_phase is not None:
+            self._set_directed(True, calculate_coherence=False)
+
     def set_directed(self, directed):
         """
         Switch between directed and undirected Hilbert climate network.
